@@ -29,6 +29,7 @@ type Profile struct {
 	Closing         bool
 	PreemptScenario int // permille of cases that start with the directed preemption world
 	Scenario        int // permille of cases that start with the directed interrupted-swap prefix
+	SecondPreempt   int // permille of cases that use the guarantee template and the second-preemption scenario
 	CrossSwap       int // permille of cases that start with the directed cross-node swap prefix
 	SwapTouch       int // permille: how often a release/update may target the real half of an in-flight swap
 	Restart         int // permille: how often an ask may be sent to a Completing application (restart)
